@@ -60,6 +60,10 @@ def run(ctx):
         cases.append(("removed-protocols", i))
     for name in ["test", "evolution/model_v2", "image", "tuples", "sandbox"]:
         cases.append(("repo", name))
+    for i in range(3 if quick else 12):
+        cases.append(("many-errors", i))
+    for i in range(2 if quick else 8):
+        cases.append(("similar-labels", i))
 
     def one(case):
         kind, i = case
@@ -83,6 +87,31 @@ def run(ctx):
             new = "Keep: !protocol\n  sequence:\n    a: long\n    added: int*\nR: !record\n  fields:\n    g: double\n    f: long\n"
             common.write_tree(base, {"v0/_package.yml": "namespace: Rp\n", "v0/m.yml": old,
                                      "new/_package.yml": "namespace: Rp\nversions:\n  v0: ../v0\njson:\n  outputDir: ../out/json\npython:\n  outputDir: ../out/python\n", "new/m.yml": new})
+            pkgdir = os.path.join(base, "new")
+        elif kind == "many-errors":
+            # more diagnostics than any plausible display limit, many of them produced while ranging over maps (symbols sharing an enum value,
+            # unused type parameters, per-protocol evolution errors)
+            nf = 15 + 4 * i
+            bad = "Wide: !record\n  fields:\n" + "".join("    Bad_Field%d: int\n" % j for j in range(nf))
+            bad += "Shared: !enum\n  values:\n" + "".join("    a%d: %d\n    b%d: %d\n" % (j, j, j, j) for j in range(6 + i))
+            bad += "SharedF: !flags\n  values:\n" + "".join("    fa%d: %d\n    fb%d: %d\n" % (j, 1 << j, j, 1 << j) for j in range(5))
+            bad += '"Unused<%s>": !record\n  fields:\n    x: int\n' % ", ".join("T%d" % j for j in range(8 + i))
+            bad += "".join("Pm%d: !protocol\n  sequence:\n    a: %s\n" % (j, "string") for j in range(8))
+            old = "".join("Pm%d: !protocol\n  sequence:\n    a: %s\n" % (j, "int") for j in range(8))
+            common.write_tree(base, {"v0/_package.yml": "namespace: Many\n", "v0/m.yml": old,
+                                     "new/_package.yml": "namespace: Many\nversions:\n  v0: ../v0\njson:\n  outputDir: ../out/json\n", "new/m.yml": bad if i % 3 != 2 else old.replace("int", "string").replace("a:", "a:") + "Other: int\n"})
+            pkgdir = os.path.join(base, "new")
+        elif kind == "similar-labels":
+            # previous versions whose labels differ only in leading zeros / digit grouping, each with its own change of the same steps
+            labels = [["v1", "v01", "v001"], ["v1_2", "v1_02", "v01_2", "v1_002"], ["r2", "r02", "r10", "r010"], ["a1b2", "a01b2", "a1b02"]][i % 4]
+            types = ["int", "long", "float", "double", "uint", "ulong", "short"]
+            proto = "Steps: !protocol\n  sequence:\n    a: %s\n    b: %s\n    s: !stream\n      items: %s\nRec: !record\n  fields:\n    f: %s\nUses: !protocol\n  sequence:\n    r: Rec\n"
+            files = {"new/_package.yml": "namespace: Lbl\nversions:\n" + "".join("  %s: ../%s\n" % (l, l) for l in labels) +
+                     "cpp:\n  sourcesOutputDir: ../out/cpp\n  generateCMakeLists: false\npython:\n  outputDir: ../out/python\n", "new/m.yml": proto % ("complexdouble", "complexdouble", "complexdouble", "complexdouble")}
+            for j, l in enumerate(labels):
+                files["%s/_package.yml" % l] = "namespace: Lbl\n"
+                files["%s/m.yml" % l] = proto % (types[j % 7], types[(j + 1) % 7], types[(j + 2) % 7], types[(j + 3) % 7])
+            common.write_tree(base, files)
             pkgdir = os.path.join(base, "new")
         elif kind == "invalid":
             pkg = modelgen.gen_corpus_package("c12i%d_%d" % (common.seed(), i), modelgen.GenOpts(max_depth=2, n_defs=(4, 8)), with_import=(i % 2 == 0))
